@@ -1323,9 +1323,17 @@ pub fn cmd_check(args: &[String]) -> i32 {
                 sh2.stop.store(true, Ordering::Relaxed);
                 break;
             }
-            if sh2.found.lock().unwrap().len() > 40 {
-                sh2.stop.store(true, Ordering::Relaxed);
-                break;
+            {
+                // Enough has been found.  A stalled run costs its worker the
+                // whole stall backstop (240 s), so two of those are enough:
+                // a tree on which many runs hang must not keep the check
+                // busy for hours.
+                let found = sh2.found.lock().unwrap();
+                let hangs = found.iter().filter(|f| f.replay.violation.kind == "hang").count();
+                if found.len() > 40 || hangs >= 2 {
+                    sh2.stop.store(true, Ordering::Relaxed);
+                    break;
+                }
             }
         });
     }
@@ -1449,6 +1457,9 @@ fn finalise_violation(rf: ReplayFile, budget_secs: u64) -> (ReplayFile, String) 
     let orig = rf.clone();
     let mut note;
     let mut cur = rf;
+    // (a hang is confirmed only by waiting out the stall backstop: every
+    // candidate of a minimisation would cost 240 s, so it is reported as found)
+    let budget_secs = if cur.violation.kind == "hang" { 0 } else { budget_secs };
     if budget_secs > 0 {
         let (min_scen, tests) = minimize::minimise(&cur.scenario, &cur.violation, Duration::from_secs(budget_secs));
         note = format!("minimised with {} candidate executions", tests);
